@@ -71,6 +71,7 @@ def main(pid, argv):
     ck.assumptions = ["fd / goroutine release is observed through the service's connection counter reaching 0 and DoListen returning after Shutdown (3 s bound)",
                       "an aborting client may make later writes fail; the order and content of dispatches before that is compared"]
     ck.check_obligations()
+    ck.lock_facts_obligation()
     bins = C.build(ck)
     if bins is None:
         return ck.finish()
